@@ -121,7 +121,7 @@ macro_rules! check_pair {
         assert!($y.cmp($x) == want.reverse(), concat!("C08: ", $what, " ordering is not antisymmetric"));
         assert!($x.partial_cmp($y) == Some(c), concat!("C08: ", $what, " partial_cmp != Some(cmp)"));
         if eq {
-            assert!(Stream::of($x).same(&Stream::of($y)), concat!("C08: equal ", $what, " values feed different data to the hasher"));
+            assert!(Stream::of($x).same_as($y), concat!("C08: equal ", $what, " values feed different data to the hasher"));
         }
     }};
 }
@@ -139,7 +139,7 @@ macro_rules! check_mode {
             assert!($x.partial_cmp($y) == Some(c), concat!("C08: ", $what, " partial_cmp != Some(cmp)"));
         } else {
             if want == Ordering::Equal {
-                assert!(Stream::of($x).same(&Stream::of($y)), concat!("C08: equal ", $what, " values feed different data to the hasher"));
+                assert!(Stream::of($x).same_as($y), concat!("C08: equal ", $what, " values feed different data to the hasher"));
             }
         }
     }};
@@ -160,14 +160,14 @@ fn authority_vs_rep<const N: usize, const K: usize, const MODE: u8>() {
     cover!(want != Ordering::Equal, "different from the representative");
 }
 
-// @h prop=C07,C08 tier=quick kind=check timeout=2400 mem=16 bound="uri::Authority <= 6 bytes x representative 'u@h' (both orders)" encodes="PartialEq/Ord/Hash for uri::Authority via AuthorityParts (derived);AuthorityImpl::parts"
+// @h prop=C07,C08 tier=quick kind=check timeout=2400 mem=6 bound="uri::Authority <= 6 bytes x representative 'u@h' (both orders)" encodes="PartialEq/Ord/Hash for uri::Authority via AuthorityParts (derived);AuthorityImpl::parts"
 #[cfg_attr(kani, kani::proof)]
 #[cfg_attr(kani, kani::unwind(10))]
 pub fn c08_authority_vs_rep1_n6() {
     authority_vs_rep::<6, 1, EQ>()
 }
 
-// @h prop=C07,C08 tier=quick kind=check timeout=2400 mem=16 bound="uri::Authority <= 6 bytes x representative 'h:1' (both orders)" encodes="same as c08_authority_vs_rep1_n6"
+// @h prop=C07,C08 tier=quick kind=check timeout=2400 mem=6 bound="uri::Authority <= 6 bytes x representative 'h:1' (both orders)" encodes="same as c08_authority_vs_rep1_n6"
 #[cfg_attr(kani, kani::proof)]
 #[cfg_attr(kani, kani::unwind(10))]
 pub fn c08_authority_vs_rep2_n6() {
@@ -189,7 +189,7 @@ fn uriref_vs_rep<const N: usize, const K: usize, const MODE: u8>() {
     cover!(want != Ordering::Equal, "different from the representative");
 }
 
-// @h prop=C07,C08 tier=quick kind=check timeout=3000 mem=24 bound="UriRef <= 5 bytes x representative 's:a/..' (both orders)" encodes="PartialEq/Ord/Hash for UriRef via UriRefParts (derived);UriRef::parts;Path/Authority/Query/Fragment comparisons"
+// @h prop=C07,C08 tier=thorough kind=check timeout=3000 mem=30 bound="UriRef <= 5 bytes x representative 's:a/..' (both orders)" encodes="PartialEq/Ord/Hash for UriRef via UriRefParts (derived);UriRef::parts;Path/Authority/Query/Fragment comparisons"
 #[cfg_attr(kani, kani::proof)]
 #[cfg_attr(kani, kani::unwind(10))]
 #[cfg_attr(kani, kani::stub(smallvec::SmallVec::try_grow, crate::stubs::sv_try_grow))]
@@ -215,16 +215,16 @@ fn uri_views<const N: usize, const V: u8>() {
     let u = unsafe { Uri::new_unchecked(a) };
     if V == V_URIREF {
         let r: &UriRef = u.borrow();
-        assert!(Stream::of(u).same(&Stream::of(r)), "C08: Uri and the same text as UriRef hash differently (Borrow<UriRef> for Uri)");
+        assert!(Stream::of(u).same_as(r), "C08: Uri and the same text as UriRef hash differently (Borrow<UriRef> for Uri)");
     } else if V == V_IRI {
         let i: &Iri = u.borrow();
-        assert!(Stream::of(u).same(&Stream::of(i)), "C08: Uri and the same text as Iri hash differently (Borrow<Iri> for Uri)");
+        assert!(Stream::of(u).same_as(i), "C08: Uri and the same text as Iri hash differently (Borrow<Iri> for Uri)");
     } else if V == V_IRIREF {
         let ir: &IriRef = u.borrow();
-        assert!(Stream::of(u).same(&Stream::of(ir)), "C08: Uri and the same text as IriRef hash differently (Borrow<IriRef> for Uri)");
+        assert!(Stream::of(u).same_as(ir), "C08: Uri and the same text as IriRef hash differently (Borrow<IriRef> for Uri)");
     } else if V == V_BUF {
         let b = unsafe { UriBuf::new_unchecked(vec_of(a)) };
-        assert!(Stream::of(u).same(&Stream::of(&b)), "C08: UriBuf hashes differently from the Uri it borrows as");
+        assert!(Stream::of(u).same_as(&b), "C08: UriBuf hashes differently from the Uri it borrows as");
         let ub: &Uri = b.borrow();
         assert!(ub.as_bytes().as_ptr() == b.as_bytes().as_ptr(), "Borrow<Uri> for UriBuf is not a view");
         forget(b);
@@ -238,7 +238,7 @@ fn uri_views<const N: usize, const V: u8>() {
     cover!(a.len() == N, "maximal length");
 }
 
-// @h prop=C08 tier=quick kind=check timeout=3000 mem=24 bound="Uri text <= 5 bytes: hash stream of Uri vs the same text as UriRef" encodes="Hash for Uri and UriRef;Borrow<UriRef> for Uri"
+// @h prop=C08 tier=thorough kind=check timeout=3000 mem=30 bound="Uri text <= 5 bytes: hash stream of Uri vs the same text as UriRef" encodes="Hash for Uri and UriRef;Borrow<UriRef> for Uri"
 #[cfg_attr(kani, kani::proof)]
 #[cfg_attr(kani, kani::unwind(10))]
 #[cfg_attr(kani, kani::stub(smallvec::SmallVec::try_grow, crate::stubs::sv_try_grow))]
@@ -265,7 +265,7 @@ pub fn c08_uri_vs_iriref_hash_n5() {
     uri_views::<5, V_IRIREF>()
 }
 
-// @h prop=C08 tier=quick kind=check timeout=3000 mem=24 bound="Uri text <= 5 bytes: hash stream of UriBuf vs Uri" encodes="derived Hash for UriBuf (forwarding);Borrow<Uri> for UriBuf"
+// @h prop=C08 tier=thorough kind=check timeout=3000 mem=30 bound="Uri text <= 5 bytes: hash stream of UriBuf vs Uri" encodes="derived Hash for UriBuf (forwarding);Borrow<Uri> for UriBuf"
 #[cfg_attr(kani, kani::proof)]
 #[cfg_attr(kani, kani::unwind(10))]
 #[cfg_attr(kani, kani::stub(smallvec::SmallVec::try_grow, crate::stubs::sv_try_grow))]
@@ -289,11 +289,11 @@ fn iri_views<const N: usize>() {
     assume(tables::t_iri_iri_valid_k(a, N));
     let u = unsafe { Iri::new_unchecked(as_str(a)) };
     let r: &IriRef = u.borrow();
-    assert!(Stream::of(u).same(&Stream::of(r)), "C08: Iri and the same text as IriRef hash differently (Borrow<IriRef> for Iri)");
+    assert!(Stream::of(u).same_as(r), "C08: Iri and the same text as IriRef hash differently (Borrow<IriRef> for Iri)");
     cover!(a.len() >= 4 && a[2] >= 0xC2, "non-ASCII text");
 }
 
-// @h prop=C08 tier=quick kind=check timeout=3000 mem=24 bound="Iri text <= 5 bytes (UTF-8): hash stream of Iri vs the same text as IriRef" encodes="Hash for Iri and IriRef;Borrow<IriRef> for Iri"
+// @h prop=C08 tier=thorough kind=check timeout=3000 mem=30 bound="Iri text <= 5 bytes (UTF-8): hash stream of Iri vs the same text as IriRef" encodes="Hash for Iri and IriRef;Borrow<IriRef> for Iri"
 #[cfg_attr(kani, kani::proof)]
 #[cfg_attr(kani, kani::unwind(10))]
 #[cfg_attr(kani, kani::stub(smallvec::SmallVec::try_grow, crate::stubs::sv_try_grow))]
@@ -446,4 +446,20 @@ pub fn c08_uriref_vs_rep8_n6() {
 #[cfg_attr(kani, kani::stub(smallvec::SmallVec::push, crate::stubs::sv_push))]
 pub fn c08_uriref_vs_rep9_n6() {
     uriref_vs_rep::<6, 9, EQ>()
+}
+
+// @h prop=C08 tier=thorough kind=check timeout=2400 mem=40 bound="Uri text <= 3 bytes: hash stream of Uri vs the same text as UriRef" encodes="Hash for Uri and UriRef;Borrow<UriRef> for Uri"
+#[cfg_attr(kani, kani::proof)]
+#[cfg_attr(kani, kani::unwind(10))]
+#[cfg_attr(kani, kani::stub(smallvec::SmallVec::try_grow, crate::stubs::sv_try_grow))]
+#[cfg_attr(kani, kani::stub(smallvec::SmallVec::push, crate::stubs::sv_push))]
+pub fn c08_uri_vs_uriref_hash_n3() {
+    uri_views::<3, V_URIREF>()
+}
+
+// @h prop=C07,C08 tier=quick kind=check timeout=2400 mem=6 bound="uri::Authority <= 6 bytes x representative 'h:1': equal values hash identically" encodes="Hash for uri::Authority via AuthorityParts (derived)"
+#[cfg_attr(kani, kani::proof)]
+#[cfg_attr(kani, kani::unwind(10))]
+pub fn c08_authority_hash_rep2_n6() {
+    authority_vs_rep::<6, 2, HASH>()
 }
